@@ -55,7 +55,7 @@ type tierCfg struct {
 
 func cfg(tier string) tierCfg {
 	if tier == "thorough" {
-		return tierCfg{sealed: 480, allBytes: true, roundtrip: 6000, questions: 6000, entropy: 600, freshKeys: 6, files: 4000, histories: 6000}
+		return tierCfg{sealed: 240, allBytes: true, roundtrip: 6000, questions: 6000, entropy: 600, freshKeys: 6, files: 4000, histories: 6000}
 	}
 	return tierCfg{sealed: 16, allBytes: false, roundtrip: 1900, questions: 260, entropy: 40, files: 160, histories: 240}
 }
